@@ -3,7 +3,7 @@
 // This source code is licensed under the MIT license found in the
 // LICENSE file in the root directory of this source tree.
 
-use alloc::vec::Vec;
+use alloc::{format, vec::Vec};
 
 use crypto::{BatchMerkleProof, ElementHasher, Hasher, MerkleTree};
 use math::FieldElement;
@@ -134,6 +134,16 @@ where
         folding_factor: usize,
     ) -> Result<Self, DeserializationError> {
         let num_partitions = proof.num_partitions();
+
+        // there must be one commitment per layer of the proof plus the remainder commitment
+        if layer_commitments.len() != proof.num_layers() + 1 {
+            return Err(DeserializationError::InvalidValue(format!(
+                "expected {} layer commitments for a proof with {} layers, but {} were provided",
+                proof.num_layers() + 1,
+                proof.num_layers(),
+                layer_commitments.len()
+            )));
+        }
 
         let remainder = proof.parse_remainder()?;
         let (layer_queries, layer_proofs) =
